@@ -356,7 +356,7 @@ func checkMain(args []string) int {
 	// distinct happens-before classes: per scenario take the largest bound explored
 	best := map[string]int{}
 	for _, r := range reports {
-		if r.DistinctH > best[r.Scenario] {
+		if r.DistinctH > best[r.Scenario] || r.Execs > 0 && best[r.Scenario] == 0 {
 			best[r.Scenario] = r.DistinctH
 		}
 	}
@@ -365,6 +365,9 @@ func checkMain(args []string) int {
 	}
 	var warnings []string
 	for _, sc := range scs {
+		if _, ran := best[sc.Name]; !ran {
+			continue
+		}
 		minHB := sc.MinHB
 		if minHB == 0 {
 			minHB = 2
